@@ -2,7 +2,7 @@
 from fractions import Fraction as F
 
 from . import core
-from .broker_check import model, req, explore_and_replay
+from .broker_check import model, req, explore_and_replay, simulate
 from .replay_broker import CLAUSE_PROPS
 
 BASE_OPS = ["quote", "trade", "value", "markall", "mark"]
@@ -20,23 +20,33 @@ def clauses_of(prop):
     return {c for c, ps in CLAUSE_PROPS.items() if prop in ps}
 
 
-def _ledger_models(tier, invariants, properties):
+def _ledger_models(tier, invariants, properties, epsilon_model=False):
     """the C01 / C05 family"""
     ms = []
+    if epsilon_model:
+        # residual positions below the broker's epsilon are dropped: trades that close all but 2^-11 of a position, with
+        # the broker's epsilon set to 1/1000 (the default 1e-7 would need denominators beyond 32 bits).  Not part of the
+        # C01 family: dropping a residual future leaves its quantity x price in the "paid" sum of the identity.
+        e = F(1, 2048)
+        ms.append(model("epsilon", ["S5", "F5"], ["quote", "trade", "value", "markall"], 4 if tier == "quick" else 5,
+                        fees="free", bids=(8,), spreads=(0, 2), dqs=(F(1), F(-1), -(1 - e), 1 - e), epsilon=F(1, 1000),
+                        invariants=invariants, properties=properties))
     if tier == "quick":
-        for fees in ("paid", "free"):
-            ms.append(model("sf-%s" % fees, ["S5", "F5"], BASE_OPS + ["lots"], 4, fees=fees,
-                            lots=[{"S5": 1, "F5": -1}, {"F5": 2}],
-                            invariants=invariants, properties=properties))
+        ms.append(model("sf-paid", ["S5", "F5"], BASE_OPS + ["lots"], 5, fees="paid", dqs=(-1, 2),
+                        lots=[{"S5": 1, "F5": -1}], invariants=invariants, properties=properties))
+        ms.append(model("sf-free", ["S5", "F5"], BASE_OPS + ["lots"], 4, fees="free",
+                        lots=[{"S5": 1, "F5": -1}, {"F5": 2}], invariants=invariants, properties=properties))
         ms.append(model("sf-etf-g1", ["S1", "G1"], BASE_OPS, 4, fees="paid", bids=(8, 10), dqs=(-3, -1, 1, 2),
                         invariants=invariants, properties=properties))
     else:
         for fees in ("paid", "free"):
-            ms.append(model("sf-%s" % fees, ["S5", "F5"], BASE_OPS + ["lots"], 5, fees=fees,
+            ms.append(model("sf-%s" % fees, ["S5", "F5"], BASE_OPS + ["lots"], 6, fees=fees, dqs=(-1, 2),
                             lots=[{"S5": 1, "F5": -1}, {"F5": 2}, {"S5": -2}],
                             invariants=invariants, properties=properties))
             ms.append(model("sf3-%s" % fees, ["S1", "G1", "H2"], BASE_OPS, 5, fees=fees, bids=(8, 10, 12),
                             dqs=(-3, -1, 1, 2), invariants=invariants, properties=properties))
+        ms.append(model("sf-wide", ["S5", "F5"], BASE_OPS + ["lots"], 5, fees="paid",
+                        lots=[{"S5": 1, "F5": -1}, {"F5": 2}], invariants=invariants, properties=properties))
         ms.append(model("sf-interest", ["S5", "F5"], ["quote", "trade", "value", "accrue", "query", "lots"], 5,
                         fees="free", rate=F(1, 8), markup=F(1, 16), steps=(1, 2), maxclk=3, dqs=(-1, 2),
                         lots=[{"F5": 1}], invariants=invariants, properties=properties))
@@ -48,8 +58,13 @@ def c01(tier, seed):
     rep.assumptions = list(ASSUME)
     inv = ["SelfFinancing"]
     props = ["TradeDelta", "QuoteDelta", "Neutral"]
-    for m in _ledger_models(tier, inv, props):
+    ms = _ledger_models(tier, inv, props)
+    for m in ms:
         explore_and_replay(rep, m, clauses_of("C01"))
+    # longer random behaviours of the same models (every state reached by the exhaustive search is replayed through ONE
+    # history only; implementation state the specification does not have shows on other paths)
+    for m in ms[:2]:
+        simulate(rep, m, clauses_of("C01"), 1500 if tier == "quick" else 20000, 9 if tier == "quick" else 14, seed)
     return rep.finish()
 
 
@@ -57,8 +72,11 @@ def c05(tier, seed):
     rep = core.Report("C05", tier, seed)
     rep.assumptions = list(ASSUME)
     inv = ["MarginInv", "NlvDecomposition"]
-    for m in _ledger_models(tier, inv, []):
+    ms = _ledger_models(tier, inv, [], epsilon_model=True)
+    for m in ms:
         explore_and_replay(rep, m, clauses_of("C05"))
+    for m in ms[:3]:
+        simulate(rep, m, clauses_of("C05"), 1500 if tier == "quick" else 20000, 9 if tier == "quick" else 14, seed)
     return rep.finish()
 
 
